@@ -49,8 +49,9 @@ type Req struct {
 	Ifnm  string   `json:"ifnm"`
 	Pform string   `json:"pform"`
 	// concretisation choices (ignored by the judge, kept for replay)
-	Spell string `json:"spell,omitempty"`
-	Fmode string `json:"fmode,omitempty"`
+	Spell   string `json:"spell,omitempty"`   // verbatim request target
+	DestRaw string `json:"destraw,omitempty"` // verbatim Destination header
+	Fmode   string `json:"fmode,omitempty"`
 }
 
 type MsResp struct {
@@ -76,21 +77,22 @@ type Report struct {
 }
 
 type Step struct {
-	K       string  `json:"k"`
-	From    string  `json:"from"`
-	Req     Req     `json:"req"`
-	St      int     `json:"st"`
-	Same    bool    `json:"same"`
-	Post    []Entry `json:"post"`
-	Rep     Report  `json:"rep"`
-	Leak    bool    `json:"leak"`
-	Secret  bool    `json:"secret"`
-	Outside string  `json:"outside"`
-	Panic   bool    `json:"panic"`
-	Conc    string  `json:"conc,omitempty"`
-	Skip    string  `json:"skip"`
-	Cid     string  `json:"cid"`
-	Touched bool    `json:"touched"`
+	K       string   `json:"k"`
+	From    string   `json:"from"`
+	Req     Req      `json:"req"`
+	St      int      `json:"st"`
+	Same    bool     `json:"same"`
+	Post    []Entry  `json:"post"`
+	Rep     Report   `json:"rep"`
+	Leak    bool     `json:"leak"`
+	Secret  bool     `json:"secret"`
+	Outside string   `json:"outside"`
+	Panic   bool     `json:"panic"`
+	Conc    string   `json:"conc,omitempty"`
+	Skip    string   `json:"skip"`
+	Cid     string   `json:"cid"`
+	Touched bool     `json:"touched"`
+	Hrefs   []string `json:"-"` // literal hrefs of a multi-status (for follow-up requests)
 }
 
 type TreeLine struct {
@@ -201,27 +203,55 @@ type Sandbox struct {
 	NM   *NameMap
 	// strings whose appearance in a response is a host-path leak
 	leaks []string
+	// Style selects how raw segment sequences are spelled (0 literal, 1 encoded dots, 2 encoded slashes, 3 absolute form)
+	Style int
 }
+
+// The served root sits below a chain of padding directories that is longer than the largest number of ".." any
+// generated path contains, so that even a server that fails to clamp dot-dot segments cannot reach above Base
+// (the checks run as root: an escaping DELETE must never be able to reach the real file system).
+const padLevels = 14
 
 func NewSandbox(parent string, toks *Tokens, nm *NameMap) (*Sandbox, error) {
 	base, err := os.MkdirTemp(parent, "sbx")
 	if err != nil {
 		return nil, err
 	}
-	sb := &Sandbox{Base: base, Root: filepath.Join(base, "srv", "root"), Toks: toks, NM: nm}
-	os.MkdirAll(filepath.Join(base, "srv", "root2"), 0755)
-	os.MkdirAll(filepath.Join(base, "srv", "a"), 0755)
-	os.WriteFile(filepath.Join(base, "top-secret.txt"), []byte(SecretMark+"-top"), 0644)
-	os.WriteFile(filepath.Join(base, "srv", "secret.txt"), []byte(SecretMark+"-parent"), 0644)
-	os.WriteFile(filepath.Join(base, "srv", "root2", "secret.txt"), []byte(SecretMark+"-sibling"), 0644)
-	os.WriteFile(filepath.Join(base, "srv", "a", "secret.txt"), []byte(SecretMark+"-samename"), 0644)
-	os.WriteFile(filepath.Join(base, "srv", "b"), []byte(SecretMark+"-samename-file"), 0644)
+	sb := &Sandbox{Base: base, Toks: toks, NM: nm}
+	sb.Root = filepath.Join(sb.srvDir(), "root")
+	sb.plant()
 	sb.leaks = []string{base}
 	if r, err := filepath.EvalSymlinks(base); err == nil && r != base {
 		sb.leaks = append(sb.leaks, r)
 	}
 	sb.outs = sb.outsideFP()
 	return sb, nil
+}
+
+func (sb *Sandbox) srvDir() string {
+	parts := []string{sb.Base}
+	for i := 0; i < padLevels; i++ {
+		parts = append(parts, fmt.Sprintf("p%d", i))
+	}
+	parts = append(parts, "srv")
+	return filepath.Join(parts...)
+}
+
+// plant (re)creates the canaries around the root: in the parent, in a sibling whose name extends the root's,
+// in siblings named like in-root resources, and at the top of the sandbox.
+func (sb *Sandbox) plant() {
+	srv := sb.srvDir()
+	os.MkdirAll(filepath.Join(srv, "root2"), 0755)
+	os.MkdirAll(filepath.Join(srv, "a"), 0755)
+	os.WriteFile(filepath.Join(sb.Base, "top-secret.txt"), []byte(SecretMark+"-top"), 0644)
+	os.WriteFile(filepath.Join(filepath.Dir(srv), "up-secret.txt"), []byte(SecretMark+"-up"), 0644)
+	os.WriteFile(filepath.Join(srv, "secret.txt"), []byte(SecretMark+"-parent"), 0644)
+	os.WriteFile(filepath.Join(srv, "root2", "secret.txt"), []byte(SecretMark+"-sibling"), 0644)
+	os.WriteFile(filepath.Join(srv, "a", "secret.txt"), []byte(SecretMark+"-samename"), 0644)
+	if fi, err := os.Lstat(filepath.Join(srv, "b")); err == nil && fi.IsDir() {
+		os.RemoveAll(filepath.Join(srv, "b"))
+	}
+	os.WriteFile(filepath.Join(srv, "b"), []byte(SecretMark+"-samename-file"), 0644)
 }
 
 func (sb *Sandbox) Close() { os.RemoveAll(sb.Base) }
@@ -260,27 +290,25 @@ func (sb *Sandbox) OutsideState() string {
 
 // RepairOutside restores the canaries after a violation so that later events are judged on their own.
 func (sb *Sandbox) RepairOutside() {
-	nb, _ := NewSandboxAt(sb.Base)
-	_ = nb
-	sb.outs = sb.outsideFP()
-}
-
-func NewSandboxAt(base string) (*Sandbox, error) {
-	os.MkdirAll(filepath.Join(base, "srv", "root2"), 0755)
-	os.MkdirAll(filepath.Join(base, "srv", "a"), 0755)
-	os.WriteFile(filepath.Join(base, "top-secret.txt"), []byte(SecretMark+"-top"), 0644)
-	os.WriteFile(filepath.Join(base, "srv", "secret.txt"), []byte(SecretMark+"-parent"), 0644)
-	os.WriteFile(filepath.Join(base, "srv", "root2", "secret.txt"), []byte(SecretMark+"-sibling"), 0644)
-	os.WriteFile(filepath.Join(base, "srv", "a", "secret.txt"), []byte(SecretMark+"-samename"), 0644)
-	os.Remove(filepath.Join(base, "srv", "b"))
-	os.WriteFile(filepath.Join(base, "srv", "b"), []byte(SecretMark+"-samename-file"), 0644)
-	return nil, nil
+	sb.plant()
+	if sb.outsideFP() != sb.outs {
+		// something extra was left outside: start from a clean surrounding
+		entries, _ := os.ReadDir(sb.Base)
+		for _, e := range entries {
+			os.RemoveAll(filepath.Join(sb.Base, e.Name()))
+		}
+		sb.plant()
+		sb.outs = sb.outsideFP()
+	}
 }
 
 // Setup makes the served directory equal to the abstract tree t.
 func (sb *Sandbox) Setup(t []Entry) error {
 	if err := os.RemoveAll(sb.Root); err != nil {
 		return err
+	}
+	if _, err := os.Stat(sb.srvDir()); err != nil {
+		sb.plant()
 	}
 	es := append([]Entry{}, t...)
 	sort.SliceStable(es, func(i, j int) bool { return len(es[i].P) < len(es[j].P) })
@@ -399,6 +427,34 @@ func EscapePath(segs []string) string {
 	return b.String()
 }
 
+// Spell renders raw segments as a request target / Destination in the given style.
+func Spell(segs []string, style int) string {
+	if len(segs) == 0 {
+		if style == 3 {
+			return "http://example.com/"
+		}
+		return "/"
+	}
+	esc := make([]string, len(segs))
+	for i, s := range segs {
+		switch {
+		case style == 1 && s == "..":
+			esc[i] = "%2e%2e"
+		case style == 1 && s == ".":
+			esc[i] = "%2E"
+		default:
+			esc[i] = url.PathEscape(s)
+		}
+	}
+	switch style {
+	case 2:
+		return "/" + strings.Join(esc, "%2F")
+	case 3:
+		return "http://example.com/" + strings.Join(esc, "/")
+	}
+	return "/" + strings.Join(esc, "/")
+}
+
 func (sb *Sandbox) concSegs(p []string) []string {
 	out := make([]string, len(p))
 	for i, s := range p {
@@ -418,8 +474,21 @@ var propfindBodies = map[string]string{
 // Build turns the abstract request into a real one. tags resolves the conditional-header classes.
 func (sb *Sandbox) Build(r *Req, variant int, tags func(class string) string) (*http.Request, context.CancelFunc, error) {
 	target := r.Spell
+	relPath := ""
 	if target == "" {
-		target = EscapePath(sb.concSegs(r.P))
+		target = Spell(sb.concSegs(r.P), sb.Style)
+		switch r.Pflag {
+		case "nul":
+			target = Spell(sb.concSegs(r.P), 0) + "%00"
+		case "rel":
+			if len(r.P) == 0 || r.P[0] == "" {
+				return nil, nil, fmt.Errorf("no relative spelling")
+			}
+			relPath = strings.Join(sb.concSegs(r.P), "/")
+			target = "/"
+		case "star":
+			target = "*"
+		}
 	}
 	var body io.Reader
 	var cancel context.CancelFunc
@@ -454,6 +523,11 @@ func (sb *Sandbox) Build(r *Req, variant int, tags func(class string) string) (*
 	if err != nil {
 		return nil, nil, err
 	}
+	if relPath != "" {
+		req.URL.Path = relPath
+		req.URL.RawPath = ""
+		req.RequestURI = relPath
+	}
 	if fr != nil {
 		req.ContentLength = int64(len(fr.data))
 	}
@@ -478,17 +552,32 @@ func (sb *Sandbox) Build(r *Req, variant int, tags func(class string) string) (*
 	}
 	if r.M == "COPY" || r.M == "MOVE" {
 		dpath := EscapePath(sb.concSegs(r.Dp))
-		switch r.Dform {
+		dform := r.Dform
+		if r.DestRaw != "" {
+			req.Header.Set("Destination", r.DestRaw)
+			dform = "verbatim"
+		}
+		switch dform {
 		case "path":
-			req.Header.Set("Destination", dpath)
+			style := sb.Style
+			if len(r.Dp) > 0 && r.Dp[0] == "" {
+				// a Destination starting with "//" would be a network-path reference (RFC 3986 4.2), i.e. another
+				// authority: sequences with an empty first segment are spelled in absolute-URL form, which is unambiguous
+				style = 3
+			}
+			req.Header.Set("Destination", Spell(sb.concSegs(r.Dp), style))
+		case "unmappable":
+			if variant%2 == 0 && len(r.Dp) > 0 && r.Dp[0] != "" {
+				req.Header.Set("Destination", strings.Join(sb.concSegs(r.Dp), "/")) // relative reference
+			} else {
+				req.Header.Set("Destination", dpath+"%00")
+			}
 		case "abs":
 			req.Header.Set("Destination", "http://example.com"+dpath)
 		case "foreign":
 			req.Header.Set("Destination", "https://other.invalid:8443"+dpath)
 		case "bad":
 			req.Header.Set("Destination", []string{dpath + "%zz", "http://[::1" + dpath, "/%"}[variant%3])
-		case "raw":
-			req.Header.Set("Destination", r.Spell2())
 		case "missing":
 		}
 	}
@@ -511,14 +600,6 @@ func (sb *Sandbox) Build(r *Req, variant int, tags func(class string) string) (*
 		req.Header.Set("If-None-Match", tags(r.Ifnm))
 	}
 	return req, cancel, nil
-}
-
-// Spell2 is the raw Destination spelling carried in the Dp field's first element for dform "raw".
-func (r *Req) Spell2() string {
-	if len(r.Dp) > 0 {
-		return r.Dp[0]
-	}
-	return ""
 }
 
 // newRequest builds a server-side request like net/http would, but never panics on odd targets.
@@ -593,7 +674,16 @@ func splitList(vs []string) []string {
 
 // HrefSegs splits an href (as found in a multi-status) into raw path segments, mapped back to abstract names.
 func (sb *Sandbox) HrefSegs(href string) ([]string, string) {
-	u, err := url.Parse(strings.TrimSpace(href))
+	// The statement reads hrefs "when sent back as a request path": origin-form strings get request-target
+	// semantics (a leading "//" is path, not authority), absolute URLs reference semantics.
+	href = strings.TrimSpace(href)
+	var u *url.URL
+	var err error
+	if strings.HasPrefix(href, "/") {
+		u, err = url.ParseRequestURI(href)
+	} else {
+		u, err = url.Parse(href)
+	}
 	if err != nil {
 		return []string{}, "unparsable"
 	}
@@ -789,6 +879,13 @@ func (sb *Sandbox) Exec(h http.Handler, r Req, from string, pre []Entry, variant
 		st.Same = true
 		return st
 	}
+	// keep the exact spelling that was sent, so that a replay of this observation is byte-identical
+	if r.Pflag == "ok" || r.Pflag == "" {
+		st.Req.Spell = req.RequestURI
+	}
+	if d := req.Header.Get("Destination"); d != "" {
+		st.Req.DestRaw = d
+	}
 	s := Serve(h, req)
 	if cancel != nil {
 		cancel()
@@ -796,6 +893,15 @@ func (sb *Sandbox) Exec(h http.Handler, r Req, from string, pre []Entry, variant
 	st.St = s.Code
 	st.Panic = s.Panic
 	st.Rep = sb.Observe(&r, s)
+	if r.M == "PROPFIND" && s.Code == 207 {
+		if ms, ok := ParseMultiStatus(s.Body); ok {
+			for _, x := range ms {
+				if len(x.Hrefs) > 0 {
+					st.Hrefs = append(st.Hrefs, strings.TrimSpace(x.Hrefs[0]))
+				}
+			}
+		}
+	}
 	st.Leak, st.Secret = sb.Leaks(s)
 	st.Outside = sb.OutsideState()
 	post := sb.Snapshot()
